@@ -142,5 +142,10 @@ func init() {
 	register("C01", "", ruleNextRequestsSearched)
 	register("C18", "", ruleUpstreamForward) // the end-of-stream signal (R12b.end) is what lets Listen and its goroutines finish
 	register("C02", "", ruleStitchVariableReserved)
+	// round 7
+	register("C05", "", ruleIDExemptionBySignature)
+	register("C06", "", ruleRoutingPairs, r6(scIntrospect, 5)) // a mutation sent to the wrong service never reaches its owner
+	register("C09", "", ruleResultIndex)                       // a failed operation keeps its place in the batch
+	register("C12", "", ruleOperationType)                     // the name of a child step is part of the de-duplication key
 	register("X6", "debug: R6 over whole module", ruleErr(errScope{label: "all", pkgs: []string{"pebbles", "common", "executor", "format", "gqlerrors", "introspection", "merger", "planner", "queryer", "requests"}}))
 }
